@@ -19,6 +19,8 @@ let () =
     | "c03" -> Fam_parse.c03
     | "c09" -> Fam_canon.c09
     | "c10" -> Fam_canon.c10
+    | "c17" -> Fam_serde.c17
+    | "c18" -> Fam_serde.c18
     | _ -> prerr_endline ("unknown family " ^ fam); exit 2
   in
   let out = Buffer.create (1 lsl 16) in
